@@ -11,7 +11,7 @@
    save_body c st p = the body a save produces for plaintext p when the encryptor IV is st;
    session_plain d t = 8-byte expiry followed by the data. *)
 From CppcmsV Require Import Base.Tac Base.CSem Base.Sweep C15.Defs C05.Defs C05.Proofs C05.ProofsAes C05.ProofsCookies
-  C05.ProofsConfig C05.ProofsTrace C05.ProofsObj C05.ProofsObjTrace C05.ProofsObjLive C05.ProofsSi C05.ProofsData C05.Toy C05.Link gen.Gen_c05key.
+  C05.ProofsConfig C05.ProofsTrace C05.ProofsObj C05.ProofsObjTrace C05.ProofsObjLive C05.ProofsSi C05.ProofsData C05.Toy C05.Link C05.LinkEqual gen.Gen_c05key gen.Gen_c05equal.
 Local Open Scope N_scope.
 
 Definition hmac_fixed_len (hmac : N -> list N -> list N -> list N) (dlen : N -> nat) : Prop :=
@@ -552,4 +552,35 @@ Example save_decision_nonvacuous :
   si_save_decide 0 3600 1000 None [([97],[1])] = Some 4600%Z /\
   session_load_data 20 (session_save_data [([97],[1;2]); ([98;99],[])]) [] = Some [([97],[1;2]); ([98;99],[])] /\
   kv_set_all [([98],[7]); ([97],[8])] [([97],[1]); ([99],[2])] = [([97],[8]); ([98],[7]); ([99],[2])].
+Proof. vm_compute. repeat split; reflexivity. Qed.
+
+(* ===== 11. tie to the source: hmac_cipher::equal, the tag comparator of BOTH encryptors (src/hmac_encryptor.cpp) =====
+   g_equal_step / g_equal_done are the loop body and the return test of the function as they are in the current source
+   (coq/gen/Gen_c05equal.v, regenerated on every run; checks/C05.py insists on the byte-loop frame around them).
+   src_equal a b = the source loop run over the two byte strings, then the return test.  It is an equality test of ALL
+   bytes and it is the model's ct_equal -- so tag_mutation_rejected & co. speak about the comparator the code really has.
+   A comparator whose accumulator can cancel (xor of lanes, wrapping sums) or looks one way only cannot satisfy this. *)
+Theorem source_equal_is_equality_of_all_bytes : forall a b, bytes_ok a -> bytes_ok b -> length a = length b ->
+  (Z.of_nat (length a) < 18446744073709551616)%Z ->
+  (src_equal a b = true <-> a = b).
+Proof. exact link_equal_iff_eq. Qed.
+Print Assumptions source_equal_is_equality_of_all_bytes.
+
+Theorem source_equal_is_model_ct_equal : forall a b, bytes_ok a -> bytes_ok b -> length a = length b ->
+  (Z.of_nat (length a) < 18446744073709551616)%Z ->
+  src_equal a b = ct_equal (length a) a b.
+Proof. exact link_equal_is_model. Qed.
+Print Assumptions source_equal_is_model_ct_equal.
+
+Theorem source_equal_step_counts_differences : forall d x y, x < 256 -> y < 256 -> (0 <= d < 18446744073709551615)%Z ->
+  g_equal_step d (as_char x) (as_char y) = if x =? y then d else (d + 1)%Z.
+Proof. exact link_equal_step. Qed.
+Print Assumptions source_equal_step_counts_differences.
+
+Example source_equal_nonvacuous :
+  src_equal [1;2;3;4;5;6;7;8] [1;2;3;4;5;6;7;8] = true /\
+  src_equal [1;2;3;4;5;6;7;8] [5;6;7;8;1;2;3;4] = false /\        (* two words exchanged *)
+  src_equal [1;2;3;4;5;6;7;8] [0;2;3;4;4;6;7;8] = false /\        (* the same bit flipped at offsets equal mod 4 *)
+  src_equal [128;0;0;0;0;0;0;0] [0;0;0;0;128;0;0;0] = false /\
+  src_equal [255;255] [255;254] = false /\ src_equal [0;0] [0;1] = false.
 Proof. vm_compute. repeat split; reflexivity. Qed.
